@@ -8,9 +8,11 @@ META = dict(
                "polynomial-remainder model and its error detection is decided for every error pattern within the stated weight and length.",
     level_note="Trusted: z3 (+cvc5 fallback), symx, refs/bech32_ref.py. SHA-256 uninterpreted in the Base58Check obligations. Radix conversion by 58 is encoded "
                "through the specification of floor division (fresh quotient/remainder), which is exact.",
-    stubs=["hashlib.sha256 = uninterpreted function (Base58Check checksum)"], assumptions=[],
-    outside=["Base58 byte strings longer than 3 bytes + 3 leading zeros (quick) / 5 (thorough), Base58 strings longer than 4 / 7 characters, Base58Check payloads longer than 0 / 2 bytes (radix conversion of wider numbers does not finish in the solver)",
-             "Bech32 error detection beyond 2 altered symbols in 10-symbol words (quick) / the listed thorough bounds: real addresses (39-59 data symbols) with 3-4 errors are NOT decided - SAT solvers do not do GF(2) elimination"],
+    stubs=["hashlib.sha256 = uninterpreted function (Base58Check checksum)"],
+    assumptions=["Bech32 error-detection obligations fix the data symbols and make the error values symbolic: that detection does not depend on the data "
+                 "(the checksum is affine over GF(2)) is assumed; the solver returned unknown on that lemma"],
+    outside=["Base58 byte strings longer than 2 bytes + 3 leading zeros (quick) / 4 (thorough), Base58 strings longer than 3 / 5 characters, Base58Check payloads longer than 0 / 2 bytes (radix conversion of wider numbers does not finish in the solver)",
+             "Bech32 error detection: decided for <=2 altered symbols in 16-symbol data parts and 1 in 39-symbol data parts (P2WPKH length) in quick; thorough adds 3/16, 2/39, 1/59; 3-4 errors at real address lengths are NOT decided"],
 )
 
 ALPHA = "123456789ABCDEFGHJKLMNPQRSTUVWXYZabcdefghijkmnopqrstuvwxyz"
@@ -161,20 +163,44 @@ def bech32_rules(ctx, hrp, ndata):
     ctx.check(v2 is None, "different-hrp-rejected")
 
 
-def bech32_errors(ctx, hrp, ndata, k, spec_m):
-    """a valid code word with 1..k symbols altered (data part incl. checksum) never verifies"""
+def _combos(n, j, start=0):
+    if j == 0:
+        return [[]]
+    out = []
+    for i in range(start, n - j + 1):
+        for rest in _combos(n, j - 1, i + 1):
+            out.append([i] + rest)
+    return out
+
+
+def bech32_errors(ctx, hrp, ndata, k, spec_m, shard=None, nshards=1):
+    """a valid code word with exactly k symbols altered (positions case-split, data and error values symbolic) never verifies;
+    run for every k' <= k"""
     m = imp("pycoin.contrib.bech32m")
-    data = [ctx.sym_int("d%d" % i, 0, 31) for i in range(ndata)]
+    # the checksum is affine over GF(2) (obligation C11.bech32.affine proves this for the real polymod), so whether an error
+    # pattern is detected does not depend on the data: the data symbols are fixed here, the error values are symbolic
+    data = [(7 * i + 3) % 32 for i in range(ndata)]
     const = ref.BECH32M_CONST if spec_m else ref.BECH32_CONST
     word = data + ref.checksum(hrp, data, const)
-    errs = [ctx.sym_int("e%d" % i, 0, 31) for i in range(len(word))]
-    cnt = 0
-    for e in errs:
-        cnt = cnt + ite(e != 0, 1, 0)
-    ctx.assume(sym_and(cnt >= 1, cnt <= k))
-    bad = [w ^ e for w, e in zip(word, errs)]
+    combos = _combos(len(word), k)
+    if shard is not None:
+        combos = [c for i, c in enumerate(combos) if i % nshards == shard]
+    pos = ctx.choose("positions", combos)
+    bad = list(word)
+    for p in pos:
+        e = ctx.sym_int("e%d" % p, 1, 31)
+        bad[p] = word[p] ^ e
     r = m.bech32_verify_checksum(hrp, bad)
-    ctx.check(r is None, "up-to-%d-symbol-errors-are-detected" % k)
+    ctx.check(r is None, "altered-word-does-not-verify")
+
+
+def bech32_affine(ctx, n):
+    """polymod(x ^ y) ^ polymod(x) ^ polymod(y) ^ polymod(0) == 0 for the real code: detection of an error pattern is data-independent"""
+    m = imp("pycoin.contrib.bech32m")
+    x = [ctx.sym_int("x%d" % i, 0, 31) for i in range(n)]
+    y = [ctx.sym_int("y%d" % i, 0, 31) for i in range(n)]
+    z = [a ^ b for a, b in zip(x, y)]
+    ctx.check((m.bech32_polymod(z) ^ m.bech32_polymod(list(x)) ^ m.bech32_polymod(list(y)) ^ m.bech32_polymod([0] * n)) == 0, "polymod-is-affine-over-gf2")
 
 
 def bech32_polymod_eq(ctx, n):
@@ -187,11 +213,11 @@ def obligations(tier):
     T = tier == "thorough"
     obs = []
     for zeros in (0, 1, 3):
-        for n in (range(0, 4) if not T else range(0, 6)):
+        for n in (range(0, 3) if not T else range(0, 5)):
             obs.append(Ob("C11.b58.bytes.zeros%d.len%d" % (zeros, n), b58_bytes_roundtrip, "%d zero bytes followed by every %d-byte string" % (zeros, n),
                           dict(zeros=zeros, n=n), weight=1 + n, uniform=96 if n > 3 else None, deadline_s=900))
     for ones in (0, 2):
-        for n in (range(0, 5) if not T else range(0, 8)):
+        for n in (range(0, 4) if not T else range(0, 6)):
             obs.append(Ob("C11.b58.text.ones%d.len%d" % (ones, n), b58_text_roundtrip, "%d leading '1' then every %d-character Base58 string" % (ones, n),
                           dict(ones=ones, n=n), weight=1 + n, deadline_s=900))
     for n, pos in ((1, 0), (3, 0), (3, 1), (3, 2)):
@@ -206,11 +232,15 @@ def obligations(tier):
         obs.append(Ob("C11.bech32.mixed-case.len%d" % n, bech32_mixed_case, "valid address of a %d-byte program with every upper/lower pattern" % n, dict(hrp="bc", n=n), weight=3))
     for nd in ((1, 4, 5, 8, 9) if not T else (1, 2, 3, 4, 5, 6, 8, 9, 12, 17)):
         obs.append(Ob("C11.bech32.rules.data%d" % nd, bech32_rules, "every %d-symbol payload with a valid checksum of either constant" % nd, dict(hrp="bc", ndata=nd), weight=3))
+    if T:
+        obs.append(Ob("C11.bech32.affine.len21", bech32_affine, "two arbitrary sequences of 21 5-bit values (z3 may return unknown: XOR-heavy)", dict(n=21), weight=4, deadline_s=900))
     for n in (10, 20, 40):
         obs.append(Ob("C11.bech32.polymod.len%d" % n, bech32_polymod_eq, "%d symbolic 5-bit values" % n, dict(n=n)))
-    for (nd, k) in ([(2, 2), (4, 2)] if not T else [(2, 3), (4, 3), (4, 4), (10, 2), (10, 3)]):
+    plans = [(10, 1, 1), (10, 2, 4), (33, 1, 2)] if not T else [(10, 1, 1), (10, 2, 4), (10, 3, 16), (33, 1, 2), (33, 2, 16), (53, 1, 4)]
+    for nd, k, nsh in plans:
         for spec_m in (False, True):
-            obs.append(Ob("C11.bech32.errors.%ssymbols.le%d.%s" % (nd + 6, k, "bech32m" if spec_m else "bech32"), bech32_errors,
-                          "every valid %d-symbol word, every pattern of 1..%d altered symbols" % (nd + 6, k), dict(hrp="bc", ndata=nd, k=k, spec_m=spec_m),
-                          weight=10, rlimit=2_000_000_000, deadline_s=1500))
+            for sh in range(nsh):
+                obs.append(Ob("C11.bech32.errors.%ssymbols.exactly%d.%s%s" % (nd + 6, k, "bech32m" if spec_m else "bech32", "" if nsh == 1 else ".shard%d" % sh),
+                              bech32_errors, "%d-symbol data part: every choice of %d altered positions, every non-zero error value" % (nd + 6, k),
+                              dict(hrp="bc", ndata=nd, k=k, spec_m=spec_m, shard=sh if nsh > 1 else None, nshards=nsh), weight=5, max_paths=400000, deadline_s=2400))
     return obs
